@@ -5,8 +5,8 @@ state parameter monitor missing, rhs, state_index, init_state_values ...), all P
 and math.h names, identifiers containing true / false, sympy names, d<..>_dt forms, grammar keywords  x  role {state, parameter, intermediate}
 x backend {numpy, c, jax} x function {rhs, monitor_values, explicit_euler, generalized_rush_larsen, hybrid_rush_larsen}.
 Oracle: the same model with the identifier consistently renamed to a fresh name (renaming done on the AST, by role) must give equal values
-by (renamed) slot name - or loading / generation / compilation must fail.  A run-time exception inside generated code or a silently
-different value is a violation.
+by (renamed) slot name - or loading / generation must fail with an error.  A module that is generated but does not import / compile, a
+run-time exception inside generated code, or a silently different value is a violation.
 """
 from __future__ import annotations
 
@@ -141,6 +141,10 @@ def run_item(item):
         except models.StageError as ex:
             res["outcomes"].append(f"{backend}:{ex.stage}-error")
             res["transitions"] += 1
+            if ex.stage in ("exec", "compile"):
+                # generation "succeeded" but the module cannot be imported / compiled: neither of the two outcomes the property allows
+                accepted = True
+                fail("broken-module", f"code is generated without an error but the module does not {'compile' if ex.stage == 'compile' else 'import'}: {' '.join(str(ex).split())[:160]}")
             continue
         accepted = True
         res["transitions"] += 3
